@@ -149,47 +149,90 @@ func Check(root, id, tier string, seed uint64) (*Result, error) {
 	}
 	defer cleanup()
 	corpus := spec.Corpus()
+	nRandom := 1
+	if tier == "thorough" {
+		nRandom = 12
+	}
+	if v := os.Getenv("VERIF_RANDOM_PROGRAMS"); v != "" {
+		fmt.Sscanf(v, "%d", &nRandom)
+	}
+	var randoms []*spec.Program
+	for i := 0; i < nRandom; i++ {
+		randoms = append(randoms, spec.RandomProgram(seed*1000003+uint64(i)*7919+17, spec.RandomOpts{}))
+	}
+	// harness invariant for random programs: the fault-free run must produce one file; a random
+	// program the plugin cannot generate at all is dropped and counted (C01's business).
+	var usable []*spec.Program
+	droppedPrograms := 0
+	for _, rp := range randoms {
+		rs := runFrom(rp.Config.Render(nil, nil))
+		o := e.Exec(rp, &rs)
+		if _, _, rerr, nf, err := responseFile(o.Stdout); o.Err == nil && o.Exit == 0 && err == nil && rerr == "" && nf == 1 {
+			usable = append(usable, rp)
+		} else {
+			droppedPrograms++
+		}
+	}
+	randoms = usable
 	var cases []*Case
-	cov := map[string]interface{}{}
+	cov := map[string]interface{}{"programs": 1 + len(randoms), "random_programs_dropped": droppedPrograms}
 	level := "exploration"
 	var assumptions []string
+	probeFails := func(p *spec.Program) int {
+		rs := runFrom(p.Config.Render(nil, nil))
+		rs.Sim = &Schedule{MapMode: "identity"}
+		o := e.Exec(p, &rs)
+		n := 0
+		for _, l := range o.Events {
+			if strings.HasPrefix(l, "fail k=") {
+				n++
+			}
+		}
+		return n
+	}
 	switch id {
 	case "C14":
-		n := 40
+		n, nr := 40, 12
 		if tier == "thorough" {
-			n = 400
+			n, nr = 400, 60
 		}
 		cases = C14Cases(corpus, C14Configs(corpus), seed, tier, n)
-		cov["rule"] = "case = (program, logical configuration, channel assignment); per case one identity reference and N perturbed runs (schedule 0: reverse at every seam site and every config list; 1: rotate; others seeded random map order, config entry order, GOMAXPROCS, GOGC, stdin chunking, clock). A run is non-trivial when its explicit RunSpec differs from the reference; distinct = distinct RunSpec hashes"
+		for i, rp := range randoms {
+			cases = append(cases, C14Cases(rp, C14ConfigsFor(rp), seed+uint64(i)+1, tier, nr)...)
+		}
+		cov["rule"] = "case = (program, logical configuration, channel assignment); programs = corpus + seeded random programs; per case one identity reference and N perturbed runs (schedule 0: reverse at every seam site and every config list; 1: rotate; others seeded random map order, config entry order, GOMAXPROCS, GOGC, stdin chunking, clock). A run is non-trivial when its explicit RunSpec differs from the reference; distinct = distinct RunSpec hashes"
 		assumptions = []string{"map iteration inside the Go runtime / standard library and goroutine scheduling are not owned (observed only)",
 			"cwd and environment are held fixed per case (not part of C14's quantifier)",
 			"the overlay rewrite preserves semantics (checked: corpus output identical to the plain binary under the identity schedule)"}
 	case "C16":
 		level = "fault_enumeration"
-		ns := 30
+		ns, nsr := 30, 6
 		if tier == "thorough" {
-			ns = 400
+			ns, nsr = 400, 40
 		}
 		var kinds map[string]int
 		cases, kinds = C16Cases(corpus, seed, tier, ns)
+		for i, rp := range randoms {
+			cs, ks := C16Cases(rp, seed+uint64(i)+1, tier, nsr)
+			cases = append(cases, cs...)
+			for k, v := range ks {
+				kinds[k] += v
+			}
+		}
 		cov["clauses"] = kinds
-		cov["rule"] = "fault-free: all-YAML reference vs all-CLI, both, each option alone on the CLI, seeded three-way splits with seeded entry order, per-option precedence (decoy in YAML, truth on CLI), for sort on and off; no-types variants; fault runs: every kernel error kind on the uninstrumented read, seam-injected EACCES/EIO at open/EIO after n bytes, unparsable content (syntax, verified by a schema-free YAML decode) and option-type mismatches. Non-trivial = every case (each differs from its reference in channel, order, or fault); distinct = distinct (clause, RunSpec) hashes"
+		cov["rule"] = "programs = corpus + seeded random programs; fault-free: all-YAML reference vs all-CLI, both, each option alone on the CLI, seeded three-way splits with seeded entry order, per-option precedence (decoy in YAML, truth on CLI), for sort on and off; no-types variants; fault runs: every kernel error kind on the uninstrumented read, seam-injected EACCES/EIO at open/EIO after n bytes, unparsable content (syntax, verified by a schema-free YAML decode) and option-type mismatches. Non-trivial = every case (each differs from its reference in channel, order, or fault); distinct = distinct (clause, RunSpec, program) hashes"
 		assumptions = []string{"option names on each channel are the public interface at the pinned commit (README)",
 			"a torn file that is still valid YAML is a readable configuration and is not asserted on"}
 	case "C18":
 		level = "fault_enumeration"
 		real, kinds := C18RealCases(seed, tier)
 		cases = real
-		// injected failures: N from a fault-free run's event log
-		rs := runFrom(corpus.Config.Render(nil, nil))
-		rs.Sim = &Schedule{MapMode: "identity"}
-		probe := e.Exec(corpus, &rs)
-		nFail := 0
-		for _, l := range probe.Events {
-			if strings.HasPrefix(l, "fail k=") {
-				nFail++
-			}
+		for i, rp := range randoms {
+			rc := C18RandomRealCases(rp, seed+uint64(i)+1, tier)
+			kinds["unmappable-random-program"] += len(rc)
+			cases = append(cases, rc...)
 		}
+		nFail := probeFails(corpus)
 		stride := 1
 		if tier == "quick" && nFail > 240 {
 			stride = (nFail + 239) / 240
@@ -197,29 +240,27 @@ func Check(root, id, tier string, seed uint64) (*Result, error) {
 		extentOK := len(ins.Reports) > 0 && ins.Reports[0].BuildExtent && nFail > 0
 		if extentOK {
 			inj := C18InjectCases(corpus, seed, tier, nFail, stride)
-			// small program too: every k
 			small := c18Base()
-			rs2 := runFrom(small.Config.Render(nil, nil))
-			rs2.Sim = &Schedule{MapMode: "identity"}
-			pr2 := e.Exec(small, &rs2)
-			n2 := 0
-			for _, l := range pr2.Events {
-				if strings.HasPrefix(l, "fail k=") {
-					n2++
-				}
-			}
+			n2 := probeFails(small)
 			inj = append(inj, C18InjectCases(small, seed, tier, n2, 1)...)
+			nr := 0
+			for _, rp := range randoms {
+				k := probeFails(rp)
+				nr += k
+				inj = append(inj, C18InjectCases(rp, seed, tier, k, 1)...)
+			}
 			kinds["injected-failure"] = len(inj)
 			cases = append(cases, inj...)
 			cov["injection_points_corpus"] = nFail
 			cov["injection_points_small"] = n2
+			cov["injection_points_random_programs"] = nr
 			cov["injection_stride_corpus"] = stride
 		} else {
 			cov["injection_skipped"] = "build extent or fallible functions not found in the current tree; only real unmappable inputs were decided"
 		}
 		cov["clauses"] = kinds
 		cov["exhaustive_over_k"] = extentOK && stride == 1
-		cov["rule"] = "real faults: every unmappable kind x every position (direct, nested, list element, depth 2, map value, oneof branch, embedded) x sort on/off, without exclusion, with Message.Field exclusion, with full-path exclusion; injected: the k-th error-originating call inside the build extent fails, k enumerated from a fault-free run's event log. Non-trivial = every case; distinct = distinct (clause, RunSpec, program) hashes"
+		cov["rule"] = "real faults: every unmappable kind x every position (direct, nested, list element, depth 2, map value, oneof branch, embedded) x sort on/off on a hand-made program, and every kind at a seeded message of each random program, without exclusion, with Message.Field exclusion, with full-path exclusion; injected: the k-th error-originating call inside the build extent fails, k enumerated from a fault-free run's event log (corpus, hand-made program, random programs). Non-trivial = every case; distinct = distinct (clause, RunSpec, program) hashes"
 		assumptions = []string{"injection is limited to functions of package main that construct an error themselves, so an injected failure always means 'this field cannot be mapped'",
 			"affected roots are computed from the shape spec's reachability, not from the plugin"}
 	default:
@@ -248,7 +289,7 @@ func Check(root, id, tier string, seed uint64) (*Result, error) {
 	distinct := map[string]bool{}
 	for _, c := range cases {
 		k := caseKey(c)
-		if id == "C18" {
+		if true {
 			pb, _ := json.Marshal(c.Program)
 			k = sha([]byte(k + string(pb)))
 		}
